@@ -1032,7 +1032,33 @@ func ruleR133(c *Ctx) {
 	_ = info
 	// createFlat reads the replaced map through its own abstract view only
 	key := "value.ReplaceMap.createFlat#abstract-view"
-	if fd := c.FuncDecl(vp, "ReplaceMap", "createFlat"); fd != nil && len(fd.Recv.List[0].Names) == 1 {
+	// the flattening method: found by name, or (if it was renamed) as the one method of ReplaceMap that returns a
+	// MapStorage and iterates (calls or ranges over an Iter)
+	flatDecl := c.FuncDecl(vp, "ReplaceMap", "createFlat")
+	if flatDecl == nil {
+		var cands []*ast.FuncDecl
+		for _, f := range vp.Syntax {
+			for _, d := range f.Decls {
+				fd, ok := d.(*ast.FuncDecl)
+				if !ok || fd.Body == nil || fd.Recv == nil || recvTypeName(fd.Recv.List[0].Type) != "ReplaceMap" || fd.Type.Results.NumFields() != 1 {
+					continue
+				}
+				if !isNamed(info.TypeOf(fd.Type.Results.List[0].Type), modPath+"/value", "MapStorage") {
+					continue
+				}
+				if containsNodeDeep(fd.Body, func(y ast.Node) bool {
+					s2, ok := y.(*ast.SelectorExpr)
+					return ok && s2.Sel.Name == "Iter"
+				}) {
+					cands = append(cands, fd)
+				}
+			}
+		}
+		if len(cands) == 1 {
+			flatDecl = cands[0]
+		}
+	}
+	if fd := flatDecl; fd != nil && len(fd.Recv.List[0].Names) == 1 {
 		recv := info.Defs[fd.Recv.List[0].Names[0]]
 		bad := ""
 		nIter := 0
